@@ -1,3 +1,192 @@
 import QcoVerif.Model.Builder
+/-
+  C07 — acquisition indices enumerate measurements exactly, in order.
+
+  About `acqScan`, the two-counter scan of `AcquisitionRegistry.get_registry_at` that `World.acq` (and the driver)
+  executes over the listed measurements `(identity, qubit)`.  The scan is a pure list function, so the statements
+  hold for every listing.  What ties "the listing of the registry circuit contains the measurement" to the API
+  (registry re-targeting through nesting) is checked by correspondence; where it fails (value-equal keys in the
+  copy lookup, R3) the scan answers (-1, -1) — `not_listed`.
+-/
 namespace Qco.C07
+
+open Qco
+
+theorem go_spec (pre : List (Nat × Int)) (m : Nat) (q : Int) (post : List (Nat × Int)) (ql cl : Int)
+    (hpre : ∀ x ∈ pre, x.1 ≠ m) :
+    acqScan.go m q (pre ++ (m, q) :: post) ql cl =
+      (ql + (pre.countP (fun x => x.2 == q) : Nat), cl + (pre.length : Nat)) := by
+  induction pre generalizing ql cl with
+  | nil => simp [acqScan.go]
+  | cons x xs ih =>
+    obtain ⟨o, oq⟩ := x
+    have hne : o ≠ m := hpre (o, oq) List.mem_cons_self
+    have hxs : ∀ x ∈ xs, x.1 ≠ m := fun x hx => hpre x (List.mem_cons_of_mem _ hx)
+    simp only [List.cons_append, acqScan.go, beq_iff_eq, hne, if_false, List.countP_cons, List.length_cons]
+    rw [ih _ _ hxs]
+    by_cases hq : oq = q
+    · simp [hq]; constructor <;> omega
+    · simp [hq]; omega
+
+/-- **circuit-level index = position, qubit-level index = rank**: the measurement listed at position `k`
+    (its identity occurring nowhere earlier) gets circuit-level index `k` and, as per-qubit index, the number of
+    earlier listed measurements on the same qubit. -/
+theorem index_eq_position_and_rank (pre : List (Nat × Int)) (m : Nat) (q : Int) (post : List (Nat × Int))
+    (hpre : ∀ x ∈ pre, x.1 ≠ m) :
+    acqScan (pre ++ (m, q) :: post) m q =
+      (((pre.countP (fun x => x.2 == q) : Nat) : Int), ((pre.length : Nat) : Int)) := by
+  unfold acqScan
+  rw [go_spec pre m q post 0 0 hpre]
+  simp
+
+theorem go_not_listed (ms : List (Nat × Int)) (m : Nat) (q : Int) (ql cl : Int) (h : ∀ x ∈ ms, x.1 ≠ m) :
+    acqScan.go m q ms ql cl = (-1, -1) := by
+  induction ms generalizing ql cl with
+  | nil => rfl
+  | cons x xs ih =>
+    obtain ⟨o, oq⟩ := x
+    have hne : o ≠ m := h (o, oq) List.mem_cons_self
+    simp only [acqScan.go, beq_iff_eq, hne, if_false]
+    exact ih _ _ (fun x hx => h x (List.mem_cons_of_mem _ hx))
+
+/-- a measurement that the registry circuit does not list has no index: the scan answers (-1, -1). -/
+theorem not_listed (ms : List (Nat × Int)) (m : Nat) (q : Int) (h : ∀ x ∈ ms, x.1 ≠ m) :
+    acqScan ms m q = (-1, -1) := go_not_listed ms m q 0 0 h
+
+/-- all indices of a listing, in listing order. -/
+def indices (ms : List (Nat × Int)) : List (Int × Int) := ms.map (fun x => acqScan ms x.1 x.2)
+
+theorem indices_aux (pre ms : List (Nat × Int)) (hnd : ((pre ++ ms).map (·.1)).Nodup) :
+    ms.map (fun x => acqScan (pre ++ ms) x.1 x.2) =
+      (List.range ms.length).zipWith (fun k (x : Nat × Int) =>
+        ((((pre ++ ms.take k).countP (fun y => y.2 == x.2) : Nat) : Int), ((pre.length + k : Nat) : Int))) ms := by
+  induction ms generalizing pre with
+  | nil => simp
+  | cons x xs ih =>
+    obtain ⟨m, q⟩ := x
+    have hpre : ∀ y ∈ pre, y.1 ≠ m := by
+      intro y hy he
+      rw [List.map_append, List.nodup_append] at hnd
+      exact hnd.2.2 y.1 (List.mem_map.mpr ⟨y, hy, rfl⟩) m (by simp) he
+    have h1 := index_eq_position_and_rank pre m q xs hpre
+    have hnd' : (((pre ++ [(m, q)]) ++ xs).map (·.1)).Nodup := by simpa using hnd
+    have h2 := ih (pre ++ [(m, q)]) hnd'
+    simp only [List.map_cons, List.length_cons, List.range_succ_eq_map, List.zipWith_cons_cons,
+      List.take_zero, List.append_nil, Nat.add_zero]
+    rw [h1]
+    congr 1
+    have e : pre ++ (m, q) :: xs = (pre ++ [(m, q)]) ++ xs := by simp
+    rw [e, h2, List.zipWith_map_left]
+    congr 1
+    funext a b
+    simp [List.take_succ_cons, Nat.add_assoc, Nat.add_comm 1]
+
+/-- **the circuit-level indices of a listing of distinct measurements are exactly 0..N-1, in listing order**, and
+    the per-qubit index of each is the number of earlier listed measurements on its qubit. -/
+theorem indices_enumerate (ms : List (Nat × Int)) (hnd : (ms.map (·.1)).Nodup) :
+    (indices ms).map (·.2) = (List.range ms.length).map (fun (k : Nat) => (k : Int)) ∧
+    indices ms = (List.range ms.length).zipWith (fun k (x : Nat × Int) =>
+        ((((ms.take k).countP (fun y => y.2 == x.2) : Nat) : Int), ((k : Nat) : Int))) ms := by
+  have h := indices_aux [] ms (by simpa using hnd)
+  simp only [List.nil_append, List.length_nil, Nat.zero_add] at h
+  refine ⟨?_, h⟩
+  unfold indices
+  rw [h]
+  apply List.ext_getElem
+  · simp
+  · intro i h1 h2
+    simp
+
+/-- per qubit the indices are exactly 0..n_q-1 in listing order: the k-th listed measurement of qubit `q` has
+    per-qubit index k (stated on the sub-list of that qubit). -/
+theorem qubit_indices_enumerate (ms : List (Nat × Int)) (hnd : (ms.map (·.1)).Nodup) (q : Int) :
+    ((ms.filter (fun x => x.2 == q)).map (fun x => (acqScan ms x.1 x.2).1)) =
+      (List.range (ms.countP (fun x => x.2 == q))).map (fun (k : Nat) => (k : Int)) := by
+  suffices h : ∀ pre ms : List (Nat × Int), ((pre ++ ms).map (·.1)).Nodup →
+      ((ms.filter (fun x => x.2 == q)).map (fun x => (acqScan (pre ++ ms) x.1 x.2).1)) =
+        (List.range (ms.countP (fun x => x.2 == q))).map
+          (fun (k : Nat) => (((pre.countP (fun x => x.2 == q) + k : Nat)) : Int)) by
+    have := h [] ms (by simpa using hnd)
+    simpa using this
+  intro pre ms
+  induction ms generalizing pre with
+  | nil => intro _; simp
+  | cons x xs ih =>
+    intro hnd
+    obtain ⟨m, q'⟩ := x
+    have hpre : ∀ y ∈ pre, y.1 ≠ m := by
+      intro y hy he
+      rw [List.map_append, List.nodup_append] at hnd
+      exact hnd.2.2 y.1 (List.mem_map.mpr ⟨y, hy, rfl⟩) m (by simp) he
+    have hnd' : (((pre ++ [(m, q')]) ++ xs).map (·.1)).Nodup := by simpa using hnd
+    have e : pre ++ (m, q') :: xs = (pre ++ [(m, q')]) ++ xs := by simp
+    have h2 := ih (pre ++ [(m, q')]) hnd'
+    by_cases hq : q' = q
+    · subst hq
+      simp only [List.filter_cons, beq_self_eq_true, if_true, List.map_cons, List.countP_cons, if_true]
+      rw [index_eq_position_and_rank pre m q' xs hpre]
+      rw [e, h2]
+      simp only [List.countP_append, List.countP_cons, beq_self_eq_true, if_true, List.countP_nil, Nat.zero_add,
+        List.range_succ_eq_map, List.map_cons, List.map_map, Nat.add_zero]
+      congr 1
+      apply List.map_congr_left
+      intro a _
+      simp only [Function.comp]
+      congr 1
+      omega
+    · have hq' : (q' == q) = false := by simpa using hq
+      simp only [List.filter_cons, hq', Bool.false_eq_true, if_false, List.countP_cons, Nat.add_zero]
+      rw [e, h2]
+      simp [List.countP_append, hq']
+
+theorem filter_or_perm {α} (l : List α) (p q : α → Bool) (hdis : ∀ x ∈ l, ¬ (p x = true ∧ q x = true)) :
+    (l.filter p ++ l.filter q).Perm (l.filter (fun x => p x || q x)) := by
+  induction l with
+  | nil => simp
+  | cons x xs ih =>
+    have ih' := ih (fun y hy => hdis y (List.mem_cons_of_mem _ hy))
+    have hx := hdis x List.mem_cons_self
+    cases hp : p x <;> cases hq : q x
+    · simpa [List.filter_cons, hp, hq] using ih'
+    · simp only [List.filter_cons, hp, hq, Bool.false_eq_true, if_false, if_true, Bool.or_true]
+      exact List.perm_middle.trans (List.Perm.cons x ih')
+    · simp only [List.filter_cons, hp, hq, Bool.false_eq_true, if_false, if_true, Bool.or_false, List.cons_append]
+      exact List.Perm.cons x ih'
+    · exact absurd ⟨hp, hq⟩ hx
+
+/-- filtering by (qubit, tag) returns exactly the matching entries in order (`List.filter`), and the tags
+    partition the entries: splitting a list by a key and concatenating the parts is a permutation of the list. -/
+theorem tags_partition {α κ} [DecidableEq κ] (l : List α) (key : α → κ) (keys : List κ) (hk : keys.Nodup)
+    (hall : ∀ x ∈ l, key x ∈ keys) :
+    (keys.flatMap (fun t => l.filter (fun x => key x = t))).Perm l := by
+  have h : ∀ ks : List κ, ks.Nodup →
+      (ks.flatMap (fun t => l.filter (fun x => key x = t))).Perm (l.filter (fun x => decide (key x ∈ ks))) := by
+    intro ks
+    induction ks with
+    | nil => intro _; simp
+    | cons t ts ih =>
+      intro hnd
+      have ht : t ∉ ts := (List.nodup_cons.mp hnd).1
+      have ih' := ih (List.nodup_cons.mp hnd).2
+      simp only [List.flatMap_cons]
+      refine (List.Perm.append_left _ ih').trans ?_
+      refine (filter_or_perm l _ _ ?_).trans ?_
+      · intro x _ ⟨h1, h2⟩
+        have e1 : key x = t := by simpa using h1
+        have e2 : key x ∈ ts := by simpa using h2
+        exact ht (e1 ▸ e2)
+      · apply List.Perm.of_eq
+        apply List.filter_congr
+        intro x _
+        simp [List.mem_cons]
+  refine (h keys hk).trans (List.Perm.of_eq ?_)
+  rw [List.filter_eq_self]
+  intro x hx
+  simpa using hall x hx
+
+/-- non-vacuity: four measurements on qubits 2, 1, 2, 2. -/
+example : indices [(10, 2), (11, 1), (12, 2), (13, 2)] = [(0, 0), (0, 1), (1, 2), (2, 3)] := by decide
+
+example : acqScan [(10, 2), (11, 1)] 99 2 = (-1, -1) := by decide
+
 end Qco.C07
